@@ -75,11 +75,16 @@ def seeds(rest, seed):
 def sensitivity(rest, seed):
     """apply each mutants/*.patch (or seeded/*/patch.diff) to a scratch worktree of /repo; the owning check must exit 1"""
     patches = sorted(glob.glob(os.path.join(VERIF, "mutants", "*.patch"))) + sorted(glob.glob(os.path.join(VERIF, "seeded", "*", "patch.diff")))
-    only = [x for x in rest if not x.startswith("all")]
+    only = [x for x in rest if not x.startswith("all") and not x.startswith("shard=")]
     run_all = "all-checks" in rest
     if only:
         patches = [p for p in patches if any(o in p for o in only)]
     wt = "/tmp/verif-sens-wt"
+    for x in rest:
+        if x.startswith("shard="):      # shard=i/n: every n-th patch starting at i, in a worktree of its own
+            i, n = x[6:].split("/")
+            patches = patches[int(i)::int(n)]
+            wt += "-" + i
     tdir = os.path.join(runner.TARGET, "qmluic-" + hashlib.sha256(wt.encode()).hexdigest()[:10])
     rows = []
     try:
